@@ -775,12 +775,13 @@ for _p, _ths in (('C05', ['FV.Tie.computeHexDigest_is_model', 'FV.Tie.validateDi
 
 # ---- packed / compressed constructors and GzipCompressor (translator/ctors.go -> Gen/Ctors.lean, Sk/Ctors.lean, Tie/Ctors.lean)
 _SKK_THEOREMS = ['FV.Tie.NewPackedForwardMessage_is_model', 'FV.Tie.NewPackedForwardMessageFromBytes_is_model',
-                 'FV.Tie.NewCompressedPackedForwardMessageFromBytes_is_model', 'FV.Tie.NewCompressedPackedForwardMessage_is_model', 'FV.Tie.GzipCompressor_shape']
+                 'FV.Tie.NewCompressedPackedForwardMessageFromBytes_is_model', 'FV.Tie.NewCompressedPackedForwardMessage_is_model', 'FV.Tie.GzipCompressor_shape',
+                 'FV.Tie.plain_constructors', 'FV.Tie.RawMessage_is_model']
 _SKK_TEXT = (" Regenerated tie for the packed / compressed constructors: NewPackedForwardMessage[FromBytes], NewCompressedPackedForwardMessage[FromBytes] and "
              "GzipCompressor.Write / Reset / Bytes are re-read on every run, each statement recognised by its exact source text (anything else `.unknown`), and "
              "proved to evaluate to newPacked / newCompressedFromBytes / newCompressed for every pooled compressor state (Tie/Ctors.lean) — including that the "
              "message's stream is a copy of the pooled compressor's buffer.")
-for _p in ('C03', 'C07'):
+for _p in ('C02', 'C03', 'C07'):
     PROPS[_p]['translator'] = True
     PROPS[_p]['lean_modules'] = PROPS[_p]['lean_modules'] + ['FluentVerif.Tie.Ctors']
     PROPS[_p]['theorems'] = PROPS[_p]['theorems'] + _SKK_THEOREMS
